@@ -8,17 +8,34 @@ open LexVerif LexVerif.Model
 /-- the cargo feature `radix` enables `power-of-two` -/
 def FeatsOk (f : Features) : Prop := f.radix = true → f.powerOfTwo = true
 
+/-- byte `x` is accepted by a comparison against `v` (exact, or ASCII-case-insensitive) -/
+def matchesB (x v : Nat) (cased : Bool) : Bool := if cased then x == v else eqIgnoreCase x v
+
+/-- what format validity gives the parser; `c.fmt.digitSeparator` is the byte `step_unchecked` asserts on -/
 structure Ctx (c : Cfg) : Prop where
-  peekEq : ∀ k b, peek c k b = .ok (b.slc[b.index]?, b)
-  sep0 : c.fmt.digitSeparator = 0
-  bc : c.bytesContiguous = true
+  skipOk : ∀ k, c.skip k ≠ .unreachable
+  nfbc : c.feats.format = false → c.bytesContiguous = true
   nfContig : c.feats.format = false → ∀ k, c.iterContiguous k = true
+  sepNotDigM : ¬ IsDig c.mantissaRadix c.fmt.digitSeparator
+  sepNotDigE : ¬ IsDig c.exponentRadix c.fmt.digitSeparator
+  sepNotPlus : c.fmt.digitSeparator ≠ 43
+  sepNotMinus : c.fmt.digitSeparator ≠ 45
+  prefixOk : c.basePrefix ≠ 0 → c.iterContiguous .integer = true ∨
+    matchesB c.fmt.digitSeparator c.basePrefix c.caseSensitiveBasePrefix = false
+  suffixOk : c.baseSuffix ≠ 0 → c.bytesContiguous = true ∨
+    matchesB c.fmt.digitSeparator c.baseSuffix c.caseSensitiveBaseSuffix = false
   r2 : 2 ≤ c.mantissaRadix
   r36 : c.mantissaRadix ≤ 36
   er36 : c.exponentRadix ≤ 36
   multi : ∀ k, canMultidigit c k = true → c.mantissaRadix ≤ 10
   pow : c.mantissaRadix ^ u64Step c.feats c.mantissaRadix ≤ pow2_64
   scale : c.mantissaRadix = c.exponentBase ∨ log2Radix c.mantissaRadix % log2Radix c.exponentBase = 0
+
+/-- what `is_valid_options_punctuation` (plus the case-insensitive exclusion) gives -/
+structure OCtx (c : Cfg) (o : Spec.POpts) : Prop where
+  dpOk : c.bytesContiguous = true ∨ o.dp ≠ c.fmt.digitSeparator
+  expOk : c.bytesContiguous = true ∨
+    matchesB c.fmt.digitSeparator o.exp (c.caseSensitiveExponent && c.feats.format) = false
 
 section validity
 variable {feats : Features} {fmt : Format}
@@ -166,16 +183,66 @@ theorem scale_of_checkRadix (c : Cfg) (h : (formatError c.feats c.fmt).isNone = 
         if_true, Bool.or_eq_true, Bool.and_eq_true, decide_eq_true_eq] at hcr
       rcases hcr with (((⟨h1, h2⟩ | ⟨h1, h2⟩) | ⟨h1, h2⟩) | ⟨h1, h2⟩) | ⟨h1, h2⟩ <;> rw [h1, h2] <;> decide
 
-theorem Ctx.of_valid (c : Cfg) (h : (formatError c.feats c.fmt).isNone = true)
-    (hcr : checkRadix c.feats c.fmt = true) (hf : FeatsOk c.feats) (hbc : c.bytesContiguous = true) : Ctx c := by
+theorem isDig_mono {r r' x : Nat} (h : IsDig r x) (hr : r ≤ r') (h2 : 2 ≤ r) (hx : x < 256) : IsDig r' x := by
+  unfold IsDig charToValidDigit at *
+  split at h <;> split <;> (try split at h) <;> (try split at h) <;> (try split at h) <;>
+    (try split) <;> (try split) <;> (try split) <;> omega
+
+theorem matchesB_zero {v : Nat} (hv : v ≠ 0) (cased : Bool) : matchesB 0 v cased = false := by
+  unfold matchesB
+  cases cased
+  · simp only [Bool.false_eq_true, if_false]
+    cases h : eqIgnoreCase 0 v
+    · rfl
+    · unfold eqIgnoreCase lowerAscii at h
+      simp at h
+      split at h <;> omega
+  · simp only [if_true]
+    simp; omega
+
+/-- the radix / separator-independent part -/
+theorem Ctx.of_valid_gen (c : Cfg) (h : (formatError c.feats c.fmt).isNone = true)
+    (hcr : checkRadix c.feats c.fmt = true) (hf : FeatsOk c.feats)
+    (hpre : c.basePrefix ≠ 0 → c.iterContiguous .integer = true ∨
+      matchesB c.fmt.digitSeparator c.basePrefix c.caseSensitiveBasePrefix = false)
+    (hsuf : c.baseSuffix ≠ 0 → c.bytesContiguous = true ∨
+      matchesB c.fmt.digitSeparator c.baseSuffix c.caseSensitiveBaseSuffix = false) : Ctx c := by
   have hm := fe_mantissa h
-  have hsep : c.fmt.digitSeparator = 0 := by
-    have := fe_sep h
+  have he := fe_expRadix h
+  have hsepv := fe_sep h
+  have hnf : c.feats.format = false → c.fmt.digitSeparator = 0 := by
+    intro hfo; simpa [hfo] using hsepv
+  have hdig : ∀ r, 2 ≤ r → r ≤ 36 → (r = c.fmt.mantissaRadix ∨ r = c.fmt.exponentRadix) →
+      ¬ IsDig r c.fmt.digitSeparator := by
+    intro r hr2 hr36 hrr
     cases hfo : c.feats.format
-    · simpa [hfo] using this
-    · simpa [Cfg.bytesContiguous, Cfg.digitSeparator, hfo] using hbc
-  refine ⟨peek_contig c h hbc, hsep, hbc, ?_, (isValidRadix_le hm).1, (isValidRadix_le hm).2,
-    (isValidRadix_le (fe_expRadix h)).2, ?_, pow_u64Step _ _ hm, scale_of_checkRadix c h hcr hf⟩
+    · rw [hnf hfo]; exact not_isDig_zero hr36
+    · intro hd
+      simp only [hfo, if_true] at hsepv
+      unfold isValidOptionalControl at hsepv
+      simp only [Bool.and_eq_true] at hsepv
+      have h1 := hsepv.1.1.1
+      have hmono : IsDig (if c.fmt.mantissaRadix > c.fmt.exponentRadix then c.fmt.mantissaRadix else c.fmt.exponentRadix)
+          c.fmt.digitSeparator := by
+        refine isDig_mono hd ?_ hr2 (by unfold Format.digitSeparator Format.byteAt; omega)
+        rcases hrr with rfl | rfl <;> split <;> omega
+      unfold charToDigit at h1
+      simp only at h1
+      unfold IsDig at hmono
+      rw [if_pos hmono] at h1
+      simp at h1
+  have hsign : c.fmt.digitSeparator ≠ 43 ∧ c.fmt.digitSeparator ≠ 45 := by
+    cases hfo : c.feats.format
+    · rw [hnf hfo]; omega
+    · simp only [hfo, if_true] at hsepv
+      unfold isValidOptionalControl at hsepv
+      simp only [Bool.and_eq_true, ne_eq, decide_eq_true_eq] at hsepv
+      exact ⟨hsepv.1.1.2, hsepv.1.2⟩
+  refine ⟨skip_ne_unreachable c h, ?_, ?_, hdig _ (isValidRadix_le hm).1 (isValidRadix_le hm).2 (Or.inl rfl),
+    hdig _ (isValidRadix_le he).1 (isValidRadix_le he).2 (Or.inr rfl), hsign.1, hsign.2, hpre, hsuf,
+    (isValidRadix_le hm).1, (isValidRadix_le hm).2,
+    (isValidRadix_le he).2, ?_, pow_u64Step _ _ hm, scale_of_checkRadix c h hcr hf⟩
+  · intro hnf; simp [Cfg.bytesContiguous, Cfg.digitSeparator, hnf]
   · intro hnf k
     cases k <;> simp [Cfg.iterContiguous, Cfg.sepFlags, Cfg.flag, Cfg.specialSep, hnf, SepFlags.any]
   · intro k hk
@@ -185,5 +252,51 @@ theorem Ctx.of_valid (c : Cfg) (h : (formatError c.feats c.fmt).isNone = true)
     · have := isValidRadix_ten hm hp hf
       unfold Cfg.mantissaRadix; omega
     · exact hle
+
+theorem sep_zero_of_bc (c : Cfg) (h : (formatError c.feats c.fmt).isNone = true) (hbc : c.bytesContiguous = true) :
+    c.fmt.digitSeparator = 0 := by
+  have := fe_sep h
+  cases hfo : c.feats.format
+  · simpa [hfo] using this
+  · simpa [Cfg.bytesContiguous, Cfg.digitSeparator, hfo] using hbc
+
+/-- class 0: `Bytes::IS_CONTIGUOUS` -/
+theorem Ctx.of_valid (c : Cfg) (h : (formatError c.feats c.fmt).isNone = true)
+    (hcr : checkRadix c.feats c.fmt = true) (hf : FeatsOk c.feats) (hbc : c.bytesContiguous = true) : Ctx c := by
+  have hs := sep_zero_of_bc c h hbc
+  refine Ctx.of_valid_gen c h hcr hf ?_ ?_
+  · intro hp; right; rw [hs]; exact matchesB_zero hp _
+  · intro _; exact Or.inl hbc
+
+theorem OCtx.of_bc (c : Cfg) (o : Spec.POpts) (hbc : c.bytesContiguous = true) : OCtx c o :=
+  ⟨Or.inl hbc, Or.inl hbc⟩
+
+/-- a contiguous component iterator (or any iterator of a contiguous `Bytes`) never skips -/
+theorem peek_triv (c : Cfg) (cx : Ctx c) (k : Comp) (hk : c.bytesContiguous = true ∨ c.iterContiguous k = true)
+    (b : Bytes) : peek c k b = .ok (b.slc[b.index]?, b) := by
+  rcases hk with hbc | hic
+  · unfold peek
+    have := cx.skipOk k
+    cases hs : c.skip k with
+    | noskip => rfl
+    | pred p => simp [peekPred_contig c hbc]
+    | unreachable => exact absurd hs this
+  · have hs : c.skip k = .noskip := by
+      cases k
+      · simp only [Cfg.iterContiguous, SepFlags.any, Bool.not_eq_true', Bool.or_eq_false_iff] at hic
+        simp only [Cfg.skip]
+        revert hic
+        cases (c.sepFlags .integer) with | mk i l t cc => intro hic; simp_all [SepFlags.skip]
+      · simp only [Cfg.iterContiguous, SepFlags.any, Bool.not_eq_true', Bool.or_eq_false_iff] at hic
+        simp only [Cfg.skip]
+        revert hic
+        cases (c.sepFlags .fraction) with | mk i l t cc => intro hic; simp_all [SepFlags.skip]
+      · simp only [Cfg.iterContiguous, SepFlags.any, Bool.not_eq_true', Bool.or_eq_false_iff] at hic
+        simp only [Cfg.skip]
+        revert hic
+        cases (c.sepFlags .exponent) with | mk i l t cc => intro hic; simp_all [SepFlags.skip]
+      · simp only [Cfg.iterContiguous, Bool.not_eq_true'] at hic
+        simp [Cfg.skip, hic]
+    simp [peek, hs]
 
 end LexVerif.Proof.PNDebug
